@@ -1,0 +1,266 @@
+//go:build verif
+
+// Contracts for the govc verifier (comment-only; see /verif/DESIGN.md).
+// This file contains no code. It is read as text by /verif/bin/govc.
+
+package interval
+
+//@ default mode int
+
+// inR(x, v): the integer v is a member of the interval x (nil bounds are infinite).
+//@ ospec inR(x IntRange, v mathint) bool = (x[0] == nil || bigval(x[0]) <= v) && (x[1] == nil || v <= bigval(x[1]))
+// inRm: the same predicate as a macro (better when the solver has to find a witness).
+//@ spec inRm(x IntRange, v mathint) bool = (x[0] == nil || bigval(x[0]) <= v) && (x[1] == nil || v <= bigval(x[1]))
+//@ spec emptyR(x IntRange) bool = x[0] != nil && x[1] != nil && bigval(x[0]) > bigval(x[1])
+
+//@ func (IntRange).Empty
+//@   prop C06
+//@   pure
+//@   ensures result == emptyR(x)
+//@   ensures[sets] result == !existsm(v, inR(x, v))
+
+//@ func (IntRange).ContainsInt
+//@   prop C06
+//@   pure
+//@   requires i != nil
+//@   ensures result == inR(x, bigval(i))
+
+//@ func (IntRange).ContainsZero
+//@   prop C06
+//@   pure
+//@   ensures result == inR(x, 0)
+
+//@ func (IntRange).ContainsNegative
+//@   prop C06
+//@   pure
+//@   ensures result == existsm(v, v < 0 && inR(x, v))
+
+//@ func (IntRange).ContainsNonNegative
+//@   prop C06
+//@   pure
+//@   ensures result == existsm(v, v >= 0 && inR(x, v))
+
+//@ func (IntRange).ContainsPositive
+//@   prop C06
+//@   pure
+//@   ensures result == existsm(v, v > 0 && inR(x, v))
+
+//@ func (IntRange).justZero
+//@   prop C06
+//@   pure
+//@   ensures result == (x[0] != nil && x[1] != nil && bigval(x[0]) == 0 && bigval(x[1]) == 0)
+
+//@ func makeEmptyRange
+//@   prop C06
+//@   ensures emptyR(result) && fresh(result[0]) && fresh(result[1]) && result[0] != result[1]
+
+//@ func bigIntNewSet
+//@   prop C06
+//@   ensures implies(i == nil, result == nil) && implies(i != nil, fresh(result) && bigval(result) == bigval(i))
+
+//@ spec inRp(x *IntRange, v mathint) bool = (x[0] == nil || bigval(x[0]) <= v) && (x[1] == nil || v <= bigval(x[1]))
+//@ spec emptyRp(x *IntRange) bool = x[0] != nil && x[1] != nil && bigval(x[0]) > bigval(x[1])
+//@ spec finite(x IntRange) bool = x[0] != nil && x[1] != nil
+//@ spec freshR(z IntRange) bool = implies(z[0] != nil, fresh(z[0])) && implies(z[1] != nil, fresh(z[1]))
+
+//@ func (IntRange).ContainsIntRange
+//@   prop C06
+//@   pure
+//@   ensures result == forallm(v, implies(inRm(y, v), inRm(x, v)))
+
+//@ func (IntRange).Eq
+//@   prop C06
+//@   pure
+//@   ensures result == forallm(v, inRm(y, v) == inRm(x, v))
+
+//@ func (IntRange).Add
+//@   prop C06
+//@   ensures[contains] forallm(a, forallm(b, implies(inR(x, a) && inR(y, b), inR(z, a + b))))
+//@   ensures[tight] implies(!emptyR(x) && !emptyR(y) && finite(x) && finite(y), finite(z) && bigval(z[0]) == bigval(x[0]) + bigval(y[0]) && bigval(z[1]) == bigval(x[1]) + bigval(y[1]))
+//@   ensures[empty] implies(old(emptyR(x)) || old(emptyR(y)), emptyR(z))
+//@   ensures[storage] freshR(z)
+
+//@ func (IntRange).TryAdd
+//@   prop C06
+//@   ensures ok
+//@   ensures[contains] forallm(a, forallm(b, implies(inR(x, a) && inR(y, b), inR(z, a + b))))
+//@   ensures[storage] freshR(z)
+
+//@ func (IntRange).Sub
+//@   prop C06
+//@   ensures[contains] forallm(a, forallm(b, implies(inR(x, a) && inR(y, b), inR(z, a - b))))
+//@   ensures[tight] implies(!emptyR(x) && !emptyR(y) && finite(x) && finite(y), finite(z) && bigval(z[0]) == bigval(x[0]) - bigval(y[1]) && bigval(z[1]) == bigval(x[1]) - bigval(y[0]))
+//@   ensures[empty] implies(old(emptyR(x)) || old(emptyR(y)), emptyR(z))
+//@   ensures[storage] freshR(z)
+
+//@ func (IntRange).TrySub
+//@   prop C06
+//@   ensures ok
+//@   ensures[contains] forallm(a, forallm(b, implies(inR(x, a) && inR(y, b), inR(z, a - b))))
+//@   ensures[storage] freshR(z)
+
+//@ func (IntRange).Unite
+//@   prop C06
+//@   ensures[contains] forallm(a, implies(inR(x, a) || inR(y, a), inR(z, a)))
+//@   ensures[tight] implies(!emptyR(x) && !emptyR(y) && finite(x) && finite(y), finite(z) && bigval(z[0]) == min(bigval(x[0]), bigval(y[0])) && bigval(z[1]) == max(bigval(x[1]), bigval(y[1])))
+//@   ensures[hull] implies(emptyR(x), forallm(a, inR(z, a) == inR(y, a))) && implies(emptyR(y), forallm(a, inR(z, a) == inR(x, a)))
+//@   ensures[storage] freshR(z)
+
+//@ func (IntRange).TryUnite
+//@   prop C06
+//@   ensures ok
+//@   ensures[contains] forallm(a, implies(inR(x, a) || inR(y, a), inR(z, a)))
+//@   ensures[storage] freshR(z)
+
+//@ func (IntRange).Intersect
+//@   prop C06
+//@   ensures[exact] forallm(a, inR(z, a) == (inR(x, a) && inR(y, a)))
+//@   ensures[storage] freshR(z)
+
+//@ func (IntRange).TryIntersect
+//@   prop C06
+//@   ensures ok
+//@   ensures[exact] forallm(a, inR(z, a) == (inR(x, a) && inR(y, a)))
+//@   ensures[storage] freshR(z)
+
+// Package-level values set up by the package initialiser and never mutated
+// afterwards (assumed; listed in the evidence).
+//@ axiom pkginit: one != nil && minusOne != nil && one != minusOne && bigval(one) == 1 && bigval(minusOne) == 0 - 1 && sharedEmptyRange[0] == one && sharedEmptyRange[1] == minusOne
+
+//@ spec negPart(x IntRange, n IntRange) bool = forallm(v, inR(n, v) == (inR(x, v) && v < 0))
+//@ spec posPart(x IntRange, p IntRange) bool = forallm(v, inR(p, v) == (inR(x, v) && v > 0))
+//@ spec nonNegPart(x IntRange, p IntRange) bool = forallm(v, inR(p, v) == (inR(x, v) && v >= 0))
+
+//@ func (IntRange).split2Ways
+//@   prop C06
+//@   ensures[parts] negPart(x, neg) && nonNegPart(x, nonNeg)
+//@   ensures[flags] hasNeg == existsm(v, v < 0 && inR(x, v)) && hasNonNeg == existsm(v, v >= 0 && inR(x, v))
+//@   ensures[shape] implies(hasNeg, neg[1] != nil && bigval(neg[1]) < 0 && neg[0] == x[0]) && implies(hasNonNeg, nonNeg[0] != nil && bigval(nonNeg[0]) >= 0 && nonNeg[1] == x[1])
+
+//@ func (IntRange).split3Ways
+//@   prop C06
+//@   ensures[parts] negPart(x, neg) && posPart(x, pos)
+//@   ensures[flags] hasNeg == existsm(v, v < 0 && inR(x, v)) && hasZero == (!emptyR(x) && inR(x, 0)) && hasPos == existsm(v, v > 0 && inR(x, v))
+//@   ensures[shape] implies(hasNeg, neg[1] != nil && bigval(neg[1]) < 0 && neg[0] == x[0] && implies(neg[0] != nil, bigval(neg[0]) <= bigval(neg[1])))
+//@   ensures[shape2] implies(hasPos, pos[0] != nil && bigval(pos[0]) > 0 && pos[1] == x[1] && implies(pos[1] != nil, bigval(pos[0]) <= bigval(pos[1])))
+
+//@ func bigIntMul
+//@   prop C06
+//@   requires i != nil && j != nil
+//@   ensures fresh(result) && bigval(result) == bigval(i) * bigval(j)
+
+//@ func bigIntQuo
+//@   prop C06
+//@   requires i != nil && j != nil && bigval(j) != 0
+//@   ensures fresh(result) && bigval(result) == bigval(i) / bigval(j)
+
+// The two implementations (Lsh for counts up to 2^32-1, Exp-and-multiply above)
+// meet the same specification.
+//@ func bigIntLsh
+//@   prop C06
+//@   requires i != nil && j != nil && bigval(j) >= 0
+//@   ensures fresh(result) && bigval(result) == bigval(i) * pow2(bigval(j))
+
+//@ func bigIntRsh
+//@   prop C06
+//@   requires i != nil && j != nil && bigval(j) >= 0
+//@   ensures fresh(result) && bigval(result) == ediv(bigval(i), pow2(bigval(j)))
+
+// biggerInt: an integer extended with -infinity (extra < 0) and +infinity (extra > 0).
+//@ ospec bLe(e int32, i *big.Int, v mathint) bool = e < 0 || (e == 0 && bigval(i) <= v)
+//@ ospec bGe(e int32, i *big.Int, v mathint) bool = e > 0 || (e == 0 && bigval(i) >= v)
+//@ ospec loLe(p *biggerIntPair, v mathint) bool = bLe(p[0].extra, p[0].i, v)
+//@ ospec hiGe(p *biggerIntPair, v mathint) bool = bGe(p[1].extra, p[1].i, v)
+//@ spec pairOK(p *biggerIntPair) bool = p != nil && (p[0].extra == 0) == (p[0].i != nil) && (p[1].extra == 0) == (p[1].i != nil)
+
+//@ func (*biggerIntPair).lowerMin
+//@   prop C06
+//@   requires pairOK(x) && (y.extra == 0) == (y.i != nil)
+//@   ensures pairOK(x) && forallm(v, loLe(x, v) == (old(loLe(x, v)) || bLe(y.extra, y.i, v)))
+//@   ensures forallm(v, hiGe(x, v) == old(hiGe(x, v))) && unchanged(x[1].extra) && unchanged(x[1].i)
+//@   ensures[finite] implies(old(x[0].extra) == 0 && y.extra == 0, x[0].extra == 0 && bigval(x[0].i) == min(old(bigval(x[0].i)), bigval(y.i)))
+//@   ensures[which] x[0].i == old(x[0].i) || x[0].i == y.i
+//@   modifies x[0].extra, x[0].i
+
+//@ func (*biggerIntPair).raiseMax
+//@   prop C06
+//@   requires pairOK(x) && (y.extra == 0) == (y.i != nil)
+//@   ensures pairOK(x) && forallm(v, hiGe(x, v) == (old(hiGe(x, v)) || bGe(y.extra, y.i, v)))
+//@   ensures forallm(v, loLe(x, v) == old(loLe(x, v))) && unchanged(x[0].extra) && unchanged(x[0].i)
+//@   ensures[finite] implies(old(x[1].extra) == 0 && y.extra == 0, x[1].extra == 0 && bigval(x[1].i) == max(old(bigval(x[1].i)), bigval(y.i)))
+//@   ensures[which] x[1].i == old(x[1].i) || x[1].i == y.i
+//@   modifies x[1].extra, x[1].i
+
+//@ func (*biggerIntPair).toIntRange
+//@   prop C06
+//@   requires pairOK(x)
+//@   ensures forallm(v, inR(result, v) == (loLe(x, v) && hiGe(x, v)))
+//@   ensures[storage] implies(result[0] != nil, result[0] == x[0].i || fresh(result[0])) && implies(result[1] != nil, result[1] == x[1].i || fresh(result[1]))
+//@   ensures[finite] implies(x[0].extra == 0 && x[1].extra == 0, result[0] == x[0].i && result[1] == x[1].i)
+
+//@ func (*biggerIntPair).fromIntRange
+//@   prop C06
+//@   requires x != nil
+//@   ensures pairOK(x) && forallm(v, loLe(x, v) == (y[0] == nil || bigval(y[0]) <= v)) && forallm(v, hiGe(x, v) == (y[1] == nil || bigval(y[1]) >= v))
+//@   ensures[storage] implies(x[0].extra == 0, fresh(x[0].i)) && implies(x[1].extra == 0, fresh(x[1].i))
+//@   modifies x[0].extra, x[0].i, x[1].extra, x[1].i
+
+//@ func newBiggerIntPair
+//@   prop C06
+//@   pure
+//@   ensures result[0].extra == 1 && result[0].i == nil && result[1].extra == 0 - 1 && result[1].i == nil
+
+// mulLsh: x * y (shift == false) or x << y (shift == true, y has no negative member).
+//@ spec corner4(v mathint, a mathint, b mathint, c mathint, d mathint) bool = v == a || v == b || v == c || v == d
+
+//@ func (IntRange).mulLsh
+//@   prop C06
+//@   requires implies(shift && !emptyR(x), forallm(v, implies(inR(y, v), v >= 0)))
+//@   ensures[contains] forallm(a, forallm(b, implies(old(inR(x, a)) && old(inR(y, b)), inR(z, ite(shift, a * pow2(b), a * b)))))
+//@   ensures[empty] implies(old(emptyR(x)) || old(emptyR(y)), emptyR(z))
+//@   ensures[storage] freshR(z)
+
+//@ func (IntRange).Mul
+//@   prop C06
+//@   ensures[contains] forallm(a, forallm(b, implies(old(inR(x, a)) && old(inR(y, b)), inR(z, a * b))))
+//@   ensures[empty] implies(old(emptyR(x)) || old(emptyR(y)), emptyR(z))
+//@   ensures[storage] freshR(z)
+
+//@ func (IntRange).TryMul
+//@   prop C06
+//@   ensures ok
+//@   ensures[contains] forallm(a, forallm(b, implies(old(inR(x, a)) && old(inR(y, b)), inR(z, a * b))))
+//@   ensures[storage] freshR(z)
+
+// TryLsh fails exactly when some pair makes the shift undefined (a negative count).
+//@ func (IntRange).TryLsh
+//@   prop C06
+//@   ensures[fails] ok == !(!old(emptyR(x)) && existsm(v, v < 0 && old(inRm(y, v))))
+//@   ensures[contains] implies(ok, forallm(a, forallm(b, implies(old(inR(x, a)) && old(inR(y, b)), inR(z, a * pow2(b))))))
+//@   ensures[storage] freshR(z)
+
+// TryQuo fails exactly when some pair makes the (truncating) division undefined.
+//@ func (IntRange).TryQuo
+//@   prop C06
+//@   ensures[fails] ok == !(!old(emptyR(x)) && !old(emptyR(y)) && old(inRm(y, 0)))
+//@   ensures[contains] implies(ok, forallm(a, forallm(b, implies(old(inR(x, a)) && old(inR(y, b)), inR(z, a / b)))))
+//@   ensures[empty] implies(old(emptyR(x)) || old(emptyR(y)), emptyR(z))
+//@   ensures[storage] freshR(z)
+
+// TryRsh fails exactly when the shift count can be negative.
+//@ func (IntRange).TryRsh
+//@   prop C06
+//@   ensures[fails] ok == !(!old(emptyR(x)) && !old(emptyR(y)) && existsm(v, v < 0 && old(inRm(y, v))))
+//@   ensures[contains] implies(ok, forallm(a, forallm(b, implies(old(inR(x, a)) && old(inR(y, b)), inR(z, ediv(a, pow2(b)))))))
+//@   ensures[empty] implies(old(emptyR(x)) || old(emptyR(y)), emptyR(z))
+//@   ensures[storage] freshR(z)
+
+//@ func bigIntNewNot
+//@   prop C06
+//@   ensures implies(i == nil, result == nil) && implies(i != nil, fresh(result) && bigval(result) == 0 - bigval(i) - 1)
+
+//@ func (*IntRange).inPlaceUnite
+//@   prop C06
+//@   requires x != nil && implies(!emptyRp(x), true) && implies(x[0] != nil && y[0] != nil, x[0] != y[0]) && implies(x[1] != nil && y[1] != nil, x[1] != y[1]) && implies(x[0] != nil && y[1] != nil, x[0] != y[1]) && implies(x[1] != nil && y[0] != nil, x[1] != y[0]) && implies(x[0] != nil, x[0] != x[1])
+//@   ensures[contains] forallm(a, implies(old(inRp(x, a)) || old(inR(y, a)), inRp(x, a)))
+//@   modifies mem(x), bigval(x[0]), bigval(x[1])
